@@ -154,6 +154,11 @@ SelfShapes == {
   "local self = 4 local o = {v = 1} function o.get() return self end ext1(o.get())",
   "local o = {v = 1, p = {v = 2}} function o.p:get(...) local self2 = self return self2.v, ... end ext1(o.p:get(9))",
   "local x, y = 1, 2 local y, x = x, y ext1(x, y)",
+  \* a KEPT name (local function, include_functions = false) declared in a scope that closes, the same name declared again
+  \* later, then more new locals than the closed scopes freed short names: none of them may take the kept name
+  "local function outer() local function hf(n) return n * 2 end return hf(2) end ext1(outer()) local function hf(n) return n + 1 end local p = hf(1) local q = hf(p) local r = hf(q) local s = hf(r) ext1(hf(s), p, q, r)",
+  "do local function hf() return 1 end ext1(hf()) end do local function hg() return 2 end ext1(hg()) end local function hf(n) return n + 1 end local function hg(n) return n + 2 end local p = hf(1) local q = hg(p) local r = hf(q) ext1(hg(r), p, q)",
+  "local function hf(n) if n > 0 then local function hf2() return 1 end return hf2() end return 0 end local function hf2(n) return n end local p = hf2(1) local q = hf(p) local r = hf2(q) ext1(hf(r), hf2(p), q)",
   \* one declaration repeating a name: the LAST one is visible (rules that rebuild the declaration must keep it so)
   "local a, b, a = ext1(1), 2 ext1(a)",
   "local a, b, a = ext1(1), 2, 3 ext1(a)",
